@@ -30,7 +30,7 @@ NS = {name: getattr(E, name) for name in
       ["AllOf", "AnyOf", "Array", "Boolean", "Element", "Integer", "Not", "Nothing", "Null",
        "Number", "Object", "OneOf", "String"]}
 NS["Property"] = Property
-CFG = R.RCfg(depth=3, equal_to_default_kw=True, extreme_literals=True)
+CFG = R.RCfg(depth=3, equal_to_default_kw=True, extreme_literals=True, unicode_class_names=True)
 
 
 def expected_keywords(node):
@@ -131,7 +131,10 @@ def predicate(case, stats):
                 f += check_object(unbound, None, ns)
                 # keyword inventory of the wrapper itself
                 text = repr(unbound)
-                call = ast.parse(text, mode="eval").body
+                try:
+                    call = ast.parse(text, mode="eval").body
+                except SyntaxError:
+                    call = None  # already reported by check_object as repr-does-not-evaluate
                 got = {k.arg for k in call.keywords} if isinstance(call, ast.Call) else None
                 exp = set()
                 if p.get("required"):
